@@ -611,6 +611,13 @@ MUTANTS = [
                             // Report transaction executed statistics.''',
          new='''                        if !server.in_transaction() {
                             // Report transaction executed statistics.'''),
+    dict(id="c12-sync-error-ignored", prop="C12", file="src/server.rs", expect="C12-R1",
+         what="D31 again: an ErrorResponse to the parameter sync is ignored",
+         old='''        if res.is_ok() && self.query_failed {
+            self.mark_bad("the server refused a parameter of the client");
+            return Err(Error::ServerError);
+        }
+''', new=''''''),
     # ------------------------------------------------------------------ C12
     dict(id="c12-raw-value", prop="C12", file="src/server.rs", expect="C12-R2",
          what="value interpolated without escaping again",
